@@ -7,7 +7,7 @@ from harness import core, py2lean, instantiate
 from harness.core import Outcome, f2b, b2f
 
 ID = "C17"
-LEAN_TARGETS = ["BeyondVerif.Props.C17", "BeyondVerif.Witness.C17"]
+LEAN_TARGETS = ["BeyondVerif.Props.C17", "BeyondVerif.Props.C17Burn", "BeyondVerif.Props.C17Struct", "BeyondVerif.Props.C17Gauss", "BeyondVerif.Witness.C17"]
 THEOREMS = [
     "BeyondVerif.C17.qsw_axes",
     "BeyondVerif.C17.tnw_axes",
@@ -34,6 +34,32 @@ THEOREMS = [
     "BeyondVerif.C17.dkep2dv_first_order_a",
     "BeyondVerif.C17.dkep2dv_dv_a",
     "BeyondVerif.C17.dkep2aol_splits",
+    "BeyondVerif.C17.tableaux_consistent",
+    "BeyondVerif.C17.thrust_time_by_stage_counts",
+    "BeyondVerif.C17.whole_steps_thrust_time",
+    "BeyondVerif.C17.whole_steps_full_dv",
+    "BeyondVerif.C17.whole_steps_full_dv_rk4",
+    "BeyondVerif.C17.whole_steps_full_dv_euler",
+    "BeyondVerif.C17.first_date_burn_thrust_time",
+    "BeyondVerif.C17.first_date_burn_rk4",
+    "BeyondVerif.C17.burn_thrust_time_within_one_step",
+    "BeyondVerif.C17.burn_within_one_step_rk4",
+    "BeyondVerif.C17.burn_within_one_step_euler",
+    "BeyondVerif.C17.accel_program",
+    "BeyondVerif.C17.accel_thrust_once",
+    "BeyondVerif.C17.thrust_independent_of_bodies",
+    "BeyondVerif.C17.accepted_spelling_selects_local",
+    "BeyondVerif.C17.other_names_select_identity",
+    "BeyondVerif.C17.keplerian_continuous_is_tnw",
+    "BeyondVerif.C17.orbit2frame_names",
+    "BeyondVerif.C17.reference_never_modified",
+    "BeyondVerif.C17.repeated_conversions_agree",
+    "BeyondVerif.C17.conversion_reads_latest",
+    "BeyondVerif.C17.gauss_inclination",
+    "BeyondVerif.C17.gauss_node",
+    "BeyondVerif.C17.dkep2dv_first_order_i",
+    "BeyondVerif.C17.dkep2dv_first_order_Omega",
+    "BeyondVerif.C17.dkep2dv_closed_form",
     "BeyondVerif.C17W.short_burn_delivers_nothing",
     "BeyondVerif.C17W.straddling_burn_delivers_too_much",
     "BeyondVerif.C17W.half_step_burn_rk4",
@@ -1392,7 +1418,7 @@ def oracle_continuous(out, rng, N):
             dur = q6(rng.uniform(1.0, 15.0) * step); kind = "long"
         else:
             dur = q6(rng.uniform(0.02, 1.0) * step); kind = "shorter-than-step"
-        start = rng.choice([step * rng.randrange(1, 6), q6(rng.uniform(0.01, 6) * step)])
+        start = rng.choice([step * rng.randrange(1, 6), q6(rng.uniform(0.01, 6) * step), 0.0 if kind == "whole-steps" else step * rng.randrange(1, 6)])
         on_grid = abs(start / step - round(start / step)) < 1e-12
         acc = [rng.uniform(1e-4, 5e-3), 0.0, 0.0] if tag else [v * rng.uniform(1e-4, 5e-3) for v in rand_unit(rng)]
         dvv = [a * dur for a in acc]
@@ -1418,8 +1444,18 @@ def oracle_continuous(out, rng, N):
         rel = abs(delivered - want) / want
         fixed = method in ("rk4", "euler")
         out.count(key=("cont", method, step, start, dur), kind=f"continuous-{method}-{kind}", on_grid=on_grid)
+        closing = float(sum(b for b, c in zip(orb.propagator.butcher["b"], orb.propagator.butcher["c"]) if c == 1))
         if not dirs_ok:
             out.fail(f"continuous-direction-{method}", "thrust is not delivered along the stated axis", inp, observed=(v1 - v0).tolist())
+        elif fixed and kind == "whole-steps" and start == 0 and closing > 0 and rel > 1e-9:
+            # theorem first_date_burn_thrust_time: the current code misses exactly the closing stages of the last step
+            want0 = norm(acc) * (dur - closing * step)
+            if abs(delivered - want0) > 1e-9 * want:
+                out.fail(f"continuous-first-date-{method}", "a burn lasting whole steps from the first date of the propagation delivers neither its full delta-v nor the full one minus "
+                         "the closing-stage weight of one step", inp, observed=float(delivered), expected=want)
+            else:
+                out.fail("continuous-burn-starts-on-first-date", "a continuous burn that starts on the first date of the propagation misses the stage dated at the end of its last step "
+                         f"(weight {closing:.4f} of one step)", inp, observed=float(delivered), expected=want, rel_error=rel)
         elif fixed and kind == "whole-steps" and rel > 1e-9:
             out.fail(f"continuous-whole-steps-{method}", "a burn lasting a whole number of fixed steps does not deliver its full delta-v", inp, observed=float(delivered), expected=want)
         elif rel > step / dur + 1e-9:
@@ -1575,6 +1611,123 @@ def oracle_dkep(out, rng, N):
             out.fail("dkep2dv-first-order-plane", "realised (di, dOmega) differ from the requested ones beyond second order", inp, observed=[d_i, d_O], expected=[di, dO], tol=tol_ang)
 
 
+def oracle_accel_bodies(out, rng, N):
+    """KeplerNum._accel: what the continuous maneuvers add (evaluation with them minus evaluation without) is the sum of the
+    accelerations of the active ones, whatever the number of attracting bodies (theorem thrust_independent_of_bodies)"""
+    import numpy as np
+    from beyond.dates import Date, timedelta
+    from beyond.orbits.man import ContinuousMan, ImpulsiveMan
+    from beyond.propagators.keplernum import KeplerNum
+    d0 = Date(2020, 5, 24)
+    for _ in range(N):
+        x = gen_state(rng)
+        t = rng.randrange(0, 600_000)
+        mans = []
+        for _k in range(rng.choice([1, 1, 2, 3])):
+            st = t + rng.choice([0, -1, -30_000, -59_999, 1])
+            mans.append(ContinuousMan(ms_date(d0, st), timedelta(milliseconds=60_000), accel=gen_vec(rng), frame=rng.choice(["QSW", "TNW", "tnw", None])))
+        if rng.random() < 0.3:
+            mans.append(ImpulsiveMan(ms_date(d0, t), gen_vec(rng)))
+        per_k = {}
+        for bodies in ([], gen_bodies(rng, d0), gen_bodies(rng, d0) + gen_bodies(rng, d0)):
+            prop = KeplerNum(timedelta(seconds=60), bodies)
+            orb = mk_orbit(x, "cartesian", prop, d0)
+            orb.maneuvers = list(mans)
+            prop.orbit = orb
+            y = prop.orbit.copy()
+            y.date = ms_date(d0, t)
+            with_m = np.array(prop._accel(y), dtype=float)
+            prop.orbit.maneuvers = []
+            without = np.array(prop._accel(y), dtype=float)
+            yc = y.copy(form="cartesian")
+            want = sum((m.accel(yc) for m in mans if isinstance(m, ContinuousMan) and m.check(y.date)), np.zeros(3))
+            got = (with_m - without)[3:]
+            tol = 1e-12 * (np.linalg.norm(without[3:]) + np.linalg.norm(want)) + 1e-300
+            inp = {"state": x, "date_ms": t, "n_bodies": len(bodies), "maneuvers": [(str(m.frame), list(map(float, getattr(m, "_accel", getattr(m, "_dv", []))))) for m in mans]}
+            out.count(key=("accelbodies", tuple(x), t, len(bodies)), kind="accel-thrust-part", n_bodies=len(bodies), active=int(np.linalg.norm(want) > 0))
+            if not np.allclose(got, want, rtol=0, atol=tol):
+                out.fail(f"accel-thrust-depends-on-bodies-{min(len(bodies), 2)}", "the acceleration added by the continuous maneuvers is not the sum of their accelerations "
+                         "(it must not depend on the number of attracting bodies)", inp, observed=got.tolist(), expected=np.array(want).tolist())
+            per_k[len(bodies)] = got
+
+
+def oracle_names(out, rng, N):
+    """every spelling of a local orbital frame accepted by the constructors selects that frame's matrix (bitwise the result of
+    the upper-case spelling); None and the name of an inertial frame leave the vector as stated"""
+    import itertools
+    import numpy as np
+    from beyond.dates import Date, timedelta
+    from beyond.orbits.man import ImpulsiveMan, ContinuousMan
+    d0 = Date(2020, 5, 24)
+    spell = {"QSW": ["".join(t) for t in itertools.product("qQ", "sS", "wW")], "TNW": ["".join(t) for t in itertools.product("tT", "nN", "wW")]}
+    for _ in range(N):
+        x = gen_state(rng)
+        orb = mk_orbit(x)
+        vec = gen_vec(rng)
+        for up, names in spell.items():
+            ref_i = ImpulsiveMan(d0, vec, frame=up).dv(orb)
+            ref_c = ContinuousMan(d0, timedelta(seconds=60), accel=vec, frame=up).accel(orb)
+            axes = np.array(axes_expected(up, x)).T @ np.array(vec)
+            for nm in names:
+                gi = ImpulsiveMan(d0, vec, frame=nm).dv(orb)
+                gc = ContinuousMan(d0, timedelta(seconds=60), accel=vec, frame=nm).accel(orb)
+                out.count(key=("spell", nm, tuple(x), tuple(vec)), kind="name-spelling-" + up, nontrivial=norm(vec) > 0)
+                for cls, got, ref in (("ImpulsiveMan", gi, ref_i), ("ContinuousMan", gc, ref_c)):
+                    if not np.array_equal(got, ref) or not np.allclose(got, axes, rtol=0, atol=1e-12 * norm(vec) + 1e-300):
+                        out.fail(f"frame-name-spelling-{cls}-{up}", f"frame={nm!r} does not select the {up} axes", {"frame": nm, "state": x, "vector": vec},
+                                 observed=np.array(got).tolist(), expected=axes.tolist())
+        for nm in (None, "EME2000", "RSW", "lvlh"):
+            gi = ImpulsiveMan(d0, vec, frame=nm).dv(orb)
+            out.count(key=("spell", str(nm), tuple(x), tuple(vec)), kind="name-spelling-other")
+            if not np.array_equal(gi, np.array(vec)):
+                out.fail("frame-name-other", "a frame name that is not QSW/TNW does not leave the vector in the axes of the orbit's frame", {"frame": nm, "state": x, "vector": vec},
+                         observed=np.array(gi).tolist(), expected=list(vec))
+
+
+def oracle_frame_references(out, rng, N):
+    """frames attached to an Orbit / an Ephem / a bare StateVector, expressed in the parent frame or in another one: the reference
+    is at the origin, conversions round-trip, the same conversion repeated gives the same numbers, and the reference object is
+    left exactly as it was (class, frame, form, coordinates, date)"""
+    import numpy as np
+    from beyond.dates import Date, timedelta
+    from beyond.frames.frames import orbit2frame
+    d0 = Date(2020, 5, 24)
+    for _ in range(N):
+        meta, pristine, live = gen_reference(rng, d0)
+        _FRAME_SEQ[0] += 1
+        name = f"C17R{_FRAME_SEQ[0] % 7}"
+        ori = rng.choice(["QSW", "TNW", "qsw", None])
+        before = snapshot(live)
+        orbit2frame(name, live, orientation=ori, exists_warning=False)
+        fam = f"{meta['kind']}-{meta['frame']}"
+        static_elsewhere = meta["kind"] == "StateVector" and meta["frame"] != "EME2000"
+        dates = [d0] if static_elsewhere else [d0, d0 + timedelta(seconds=q6(rng.uniform(-3000, 3000))), d0 + timedelta(seconds=q6(rng.uniform(0, 86400)))]
+        for rep in range(2):
+            for date in dates:
+                rc = np.array(ref_state(pristine, date))
+                sr, sv = np.linalg.norm(rc[:3]), np.linalg.norm(rc[3:])
+                inp = {"frame": name, "reference": meta, "orientation": ori, "date": str(date), "pass": rep}
+                at0 = np.array(mk_orbit(list(rc), "cartesian", None, date).copy(frame=name))
+                out.count(key=("ref-origin", fam, str(date), ori, rep, tuple(meta["kep"])), kind=f"ref-origin-{fam}", orientation=str(ori))
+                if not (np.all(np.abs(at0[:3]) <= 1e-9 * sr) and np.all(np.abs(at0[3:]) <= 1e-9 * sv + 1e-9)):
+                    out.fail(f"orbit-frame-origin-ref-{fam}", "the reference a frame is attached to is not at that frame's origin", inp, observed=at0.tolist(), expected=[0] * 6)
+                x = rc + np.array([rng.uniform(-1, 1) * 10 ** rng.uniform(0, 6) for _ in range(3)] + [rng.uniform(-1, 1) * 10 ** rng.uniform(-3, 2) for _ in range(3)])
+                o = mk_orbit(list(x), "cartesian", None, date)
+                loc1, loc2 = np.array(o.copy(frame=name)), np.array(o.copy(frame=name))
+                back = np.array(o.copy(frame=name).copy(frame="EME2000"))
+                out.count(key=("ref-repeat", fam, str(date), ori, rep, tuple(x)), kind=f"ref-repeat-{fam}")
+                if not np.array_equal(loc1, loc2):
+                    out.fail(f"orbit-frame-repeat-differs-{fam}", "the same conversion into an orbit-attached frame, repeated, gives other numbers", dict(inp, state=x.tolist()),
+                             observed=loc2.tolist(), expected=loc1.tolist())
+                if not (np.allclose(back[:3], x[:3], rtol=0, atol=1e-9 * sr) and np.allclose(back[3:], x[3:], rtol=0, atol=1e-9 * sv + 1e-9)):
+                    out.fail(f"orbit-frame-roundtrip-ref-{fam}", "parent -> attached frame -> parent changes the state", dict(inp, state=x.tolist()), observed=back.tolist(), expected=x.tolist())
+                after = snapshot(live)
+                if after != before:
+                    out.fail(f"orbit-frame-reference-modified-{fam}", "a conversion through an orbit-attached frame modified the reference object the frame was created from",
+                             inp, observed=str(after[:3]), expected=str(before[:3]))
+                    before = after
+
+
 def oracle(ctx, widened):
     out = Outcome()
     rng = ctx.rng
@@ -1586,6 +1739,9 @@ def oracle(ctx, widened):
     oracle_windows(out, rng, 2000 if big else 200)
     oracle_continuous(out, rng, 300 if big else 40)
     oracle_dkep(out, rng, 3000 if big else 400)
+    oracle_accel_bodies(out, rng, 300 if big else 40)
+    oracle_names(out, rng, 60 if big else 6)
+    oracle_frame_references(out, rng, 80 if big else 12)
     return out
 
 
